@@ -225,3 +225,5 @@ type PcCall struct {
 	EOA    common.Address
 	Note   string
 }
+
+func keccak(b []byte) []byte { return ethcrypto.Keccak256(b) }
